@@ -52,9 +52,11 @@ Theorem C13_separation_preserved : forall idna_raw c h op h', Sep h -> h_step id
 Proof. exact Sep_preserved. Qed.
 Print Assumptions C13_separation_preserved.
 
-(* an operation changes nothing observable about any URL other than its target *)
+(* an operation changes nothing observable about any URL other than its target - and, for
+   a.SetSearchParams(b.SearchParams()), the URL the argument is taken from (arg_of; None for every other operation):
+   its SearchParams object comes into being, see C13_adopt_heap *)
 Theorem C13_heap_frame : forall idna_raw c h op h' b, Sep h -> h_step idna_raw c h op = Some h' ->
-  target h op <> Some b -> abs h' b = abs h b.
+  target h op <> Some b -> arg_of op <> Some b -> abs h' b = abs h b.
 Proof. exact frame. Qed.
 Print Assumptions C13_heap_frame.
 
@@ -81,3 +83,60 @@ Theorem C13_buggy_clone_D9_refuted : Sep h_a /\ h_clone_D9 h_a 0%nat = Some (h_d
   q_of h_d9' 1%nat = q_of h_d9 1%nat /\ ~ Sep h_d9.
 Proof. exact mutant_D9. Qed.
 Print Assumptions C13_buggy_clone_D9_refuted.
+
+(* ---------- SetSearchParams on the object graph (the operation as repaired by 44c5d62, and as found: D26) ---------- *)
+
+(* separation is preserved by a.SetSearchParams(b.SearchParams()): an instance of C13_separation_preserved, which
+   quantifies over every operation including HAdopt *)
+Theorem C13_adopt_separation : forall idna_raw c h a b h', Sep h -> h_step idna_raw c h (HAdopt a b) = Some h' -> Sep h'.
+Proof. intros idna_raw c h a b h'. exact (Sep_preserved idna_raw c h (HAdopt a b) h'). Qed.
+Print Assumptions C13_adopt_separation.
+
+(* its whole effect: a holds b's list and the query it serializes to; b is as b.SearchParams() alone leaves it;
+   no other URL changes (the object-graph counterpart of C13_adopt_frame / C13_adopt_reflected) *)
+Theorem C13_adopt_heap : forall idna_raw c h a b h', Sep h -> h_step idna_raw c h (HAdopt a b) = Some h' ->
+  exists u v, abs h a = Some u /\ abs h b = Some v /\
+    abs h' a = Some (sp_update c (fst (ensure_sp c u)) (snd (ensure_sp c v))) /\
+    (b <> a -> abs h' b = Some (fst (ensure_sp c v))) /\
+    (forall x, x <> a -> x <> b -> abs h' x = abs h x) /\ Sep h'.
+Proof. exact adopt_spec. Qed.
+Print Assumptions C13_adopt_heap.
+
+(* the step of the finite-map value model that HAdopt refines (C13_heap_refines_values) is the OSpAdopt step of the
+   two-slot histories when the handles are the two slots *)
+Theorem C13_adopt_is_OSpAdopt : forall idna_raw c m n slot st',
+  l1_step idna_raw c (m, n) (L1Adopt (slot_loc slot) (slot_loc (negb slot))) = Some st' ->
+  fst (hstep idna_raw c (m 0%nat, m 1%nat) (OSpAdopt slot)) = (fst st' 0%nat, fst st' 1%nat) /\ snd st' = n.
+Proof. exact l1_adopt_is_OSpAdopt. Qed.
+Print Assumptions C13_adopt_is_OSpAdopt.
+
+(* D26, the code as found: url0.SetSearchParams(url1.SearchParams()) on the separated heap holding http://a/p?x=1 and
+   http://b/q?y=2 leaves both URLs pointing to ONE SearchParams object, owned by URL 1 (not separated), and
+   url0.SearchParams().Append("b","2") then rewrites URL 1's query and list while URL 0's query stays "x=1" *)
+Theorem C13_buggy_set_search_params_D26_refuted :
+  Sep h_ab /\ h_adopt_D26 Gen.Options.default_cfg h_ab 0%nat 1%nat = Some h_d26 /\ ~ Sep h_d26 /\
+  sp_of h_d26 0%nat = Some 0%nat /\ sp_of h_d26 1%nat = Some 0%nat /\
+  option_map s_owner (rd (hs h_d26) 0%nat) = Some (Some 1%nat) /\
+  h_sp_via Gen.Options.default_cfg app_b2 h_d26 0%nat = Some h_d26' /\
+  q_of h_d26 1%nat = Some (Some [121; 61; 50]) /\
+  q_of h_d26' 1%nat = Some (Some [121; 61; 50; 38; 98; 61; 50]) /\
+  sp_val h_d26' 1%nat = Some (Some [([121], [50]); ([98], [50])]) /\
+  q_of h_d26' 0%nat = Some (Some [120; 61; 49]).
+Proof.
+  destruct mutant_D26 as (A1 & A2 & A3 & A4 & A5 & A6 & A7 & A8 & A9 & A10 & A11 & A12 & A13).
+  repeat (match goal with |- _ /\ _ => split end); assumption.
+Qed.
+Print Assumptions C13_buggy_set_search_params_D26_refuted.
+
+(* the repaired operation on the same heap: two objects, each owned by its URL; the append through URL 0 stays in URL 0 *)
+Theorem C13_adopt_repaired_example :
+  h_step idn Gen.Options.default_cfg h_ab (HAdopt 0%nat 1%nat) = Some h_fix /\ Sep h_fix /\
+  sp_of h_fix 0%nat = Some 1%nat /\ sp_of h_fix 1%nat = Some 0%nat /\
+  h_sp_via Gen.Options.default_cfg app_b2 h_fix 0%nat = Some h_fix' /\
+  q_of h_fix' 0%nat = Some (Some [121; 61; 50; 38; 98; 61; 50]) /\
+  q_of h_fix' 1%nat = Some (Some [121; 61; 50]) /\ sp_val h_fix' 1%nat = Some (Some [([121], [50])]).
+Proof.
+  destruct adopt_repaired_ex as (A1 & A2 & A3 & A4 & A5 & A6 & A7 & A8 & A9 & A10 & A11 & A12 & A13 & A14).
+  repeat (match goal with |- _ /\ _ => split end); assumption.
+Qed.
+Print Assumptions C13_adopt_repaired_example.
